@@ -179,6 +179,8 @@ def run(tier, seed, build, res):
                              '%s (it outlives the call)' % name))
     res.extra['module_level_objects_modified'] = sorted(CHANGED)
     shell_files(res)
+    from props import c06
+    c06.customisation_stream(res, 'C17')
     server_histories(rng, res, 4 if tier == 'quick' else 30)
 
 
@@ -211,7 +213,8 @@ def server_histories(rng, res, n):
     """requests to one --as-server process vs a fresh server per request"""
     texts = ['\\newcommand{\\sa}{macro text}A \\sa{} Fehlerr B\n',
              'C \\sa{} D Fehlerr\n', 'E $x$ F $y$ Fehlerr\n',
-             '\\begin{enumerate}\\item a Fehlerr\n', '\\item b Fehlerr $z$\n']
+             '\\begin{enumerate}\\item a Fehlerr\n', '\\item b Fehlerr $z$\n',
+             'G "a "o "s Fehlerr \\begin{proof}P\\end{proof} $q$ H\n']
     base = {'language': 'en-GB', 'multi': False, 'mlc': 2, 'tex': ''}
 
     class S(c14.Server):
@@ -237,13 +240,18 @@ def server_histories(rng, res, n):
         calls = [json.loads(l) for l in open(srv.log, encoding='utf-8')] \
             if os.path.exists(srv.log) else []
         return ([(m['offset'], m['length']) for m in out['matches']],
-                [c['argv'] for c in calls])
+                [c['argv'] for c in calls], [c['text'] for c in calls])
 
     class C(dict):
         pass
     for _ in range(n):
-        seq = [(rng.choice(texts), rng.choice([None, None, {'disabledRules': 'RULE_A'}]))
+        seq = [(rng.choice(texts), rng.choice([None, None, {'disabledRules': 'RULE_A'},
+                                               {'language': 'de-DE'}, {'language': 'ru-RU'}]))
                for _ in range(rng.randint(2, 4))]
+        if _ == 0:
+            # the language of a request holds for that request only
+            seq = [(texts[-1], {'language': 'de-DE'}), (texts[-1], None), (texts[-1], {'language': 'ru-RU'}),
+                   (texts[-1], None)]
         cfg = dict(base)
         cfg['answers'] = [b'{"matches": []}']
         cfg['extra_args'] = ['--lt-options', '~--disable FOO --enablecategories CAT']
